@@ -505,6 +505,40 @@ def rule_reseed_limit(rep, m, cname):
                       "squeezing", config=cname)
     else:
         rep.instance(rid, 1)
+    # every other public function that hands out generator output (directly or through helpers of the unit; calls to
+    # ascon_random_fetch carry their own guard) does so after the same limit test or right after an entropy draw
+    for g in m.defined():
+        if g.internal or g.name == "ascon_random_fetch" or _state_param(g) is None:
+            continue
+        sqs = reach_calls(m, g, "ascon_xof_squeeze", helpers)
+        if not sqs:
+            continue
+        Rg = ptr.resolver(g)
+        gp = g.params[_state_param(g)]
+        draws = [c for c, _o in reach_calls(m, g, "ascon_trng_generate", helpers)] + \
+            [c for c, _o in reach_calls(m, g, "ascon_random_reseed", helpers)] + list(g.calls("ascon_random_reseed"))
+        guards = []
+        for i in g.insts():
+            if i.op != "icmp":
+                continue
+            ld = g.defs.get(i.ops[0]) if ir.is_local(i.ops[0]) else None
+            c = ir.const_int(i.ops[1])
+            if c is None or ld is None or ld.op != "load":
+                continue
+            pv = Rg.resolve(ld.ops[0])
+            pr = i.d["pred"]
+            thr = c if pr in ("uge", "ult") else c + 1 if pr in ("ugt", "ule") else None
+            if pv.single() == ("param", gp) and pv.offset == coff and thr == RESEED_LIMIT:
+                guards.append(i)
+        for site, _ops in sqs:
+            ok = any(g.dominates(d, site) for d in draws) or any(g.dominates(gi, site) for gi in guards)
+            if ok:
+                rep.instance(rid, 1, {"config": cname, "function": g.name, "output_site": site.where()})
+            else:
+                rep.violation(rid, "%s:unguarded-output" % g.name, site.where(),
+                              "%s squeezes generator output without first testing the produced-bytes counter against %d (and "
+                              "reseeding) and without a fresh entropy draw on the way: more than %d bytes can be produced from "
+                              "one seed" % (g.name, RESEED_LIMIT, RESEED_LIMIT), config=cname)
 
 
 # ---------------------------------------------------------------------------
